@@ -49,6 +49,8 @@ def lean_ty(t):
         return "List " + lean_ty(t[1])
     if t[0] == "T":
         return " × ".join(lean_ty(x) for x in t[1])
+    if t[0] == "O":
+        return "Option (%s)" % lean_ty(t[1])
     raise Unsupported("type %r" % (t,))
 
 
@@ -107,6 +109,15 @@ class P:
             return INT_TYPES[name]
         if name == "bool":
             return BOOL
+        if name in ("Result", "Option") and self.peek() == "<":
+            self.eat("<")
+            inner = self.ty()
+            if name == "Result":
+                self.eat(",")
+                self.eat("(")
+                self.eat(")")
+            self.eat(">")
+            return ("O", inner)
         if name == "Range" and self.peek() == "<":
             self.eat("<")
             inner = self.ty()
@@ -255,6 +266,11 @@ class P:
         if v in ("!", "-", "*"):
             self.eat()
             return ("un", v, self.unary())
+        if v == "&":
+            self.eat()
+            if self.peek() == "mut":
+                self.eat()
+            return self.unary()
         return self.postfix()
 
     def postfix(self):
@@ -283,6 +299,48 @@ class P:
             else:
                 return e
 
+    def match_(self):
+        """`match scrutinee { lit [| lit] => arm, ..., _ => arm }` as a chain of ifs (the scrutinee is pure)"""
+        self.eat("match")
+        scrut = self.expr()
+        self.eat("{")
+        arms = []
+        default = None
+        while self.peek() != "}":
+            pats = []
+            while True:
+                if self.peek() == "_":
+                    self.eat()
+                    pats = None
+                else:
+                    pats.append(self.unary())
+                if self.peek() == "|":
+                    self.eat()
+                    continue
+                break
+            self.eat("=>")
+            if self.peek() == "{":
+                body = self.block()
+            else:
+                body = [("expr", self.expr(), False)]
+            if self.peek() == ",":
+                self.eat()
+            if pats is None:
+                default = body
+            else:
+                arms.append((pats, body))
+        self.eat("}")
+        if default is None:
+            raise Unsupported("match without a `_` arm")
+        node_else = default
+        for pats, body in reversed(arms):
+            cond = None
+            for pt in pats:
+                c = ("bin", "==", scrut, pt)
+                cond = c if cond is None else ("bin", "||", cond, c)
+            node_else = [("expr", ("if", cond, body, node_else), False)]
+        return node_else[0][1]
+
     def primary(self):
         k, v = self.kind(), self.peek()
         if k == "num":
@@ -297,6 +355,10 @@ class P:
             trailing = False
             while self.peek() != ")":
                 items.append(self.expr())
+                if self.peek() == "..=":
+                    self.eat()
+                    hi = self.expr(1)
+                    items[-1] = ("rangei", items[-1], hi)
                 trailing = False
                 if self.peek() == ",":
                     self.eat()
@@ -317,6 +379,11 @@ class P:
                 else:
                     b = self.block()
             return ("if", c, a, b)
+        if v == "match":
+            return self.match_()
+        if v == "return":
+            self.eat()
+            return ("ret", None if self.peek() in (",", ";", "}") else self.expr())
         if v == "{":
             return ("block", self.block())
         if v in ("true", "false"):
@@ -533,6 +600,13 @@ class Tr:
 
     def method(self, e, env, want):
         m, recv, args = e[1], e[2], e[3]
+        if m == "contains" and recv[0] == "rangei" and len(args) == 1:
+            x, tx = self.ex(args[0], env)
+            lo, tl = self.ex(recv[1], env, tx)
+            hi, th = self.ex(recv[2], env, tx)
+            if not (tl == tx == th):
+                raise Unsupported("range bounds and element have different types")
+            return "((decide (%s ≤ %s)) && (decide (%s ≤ %s)))" % (lo, x, x, hi), BOOL
         a, ta = self.ex(recv, env, want)
         W = {"wrapping_add": "+", "wrapping_sub": "-", "wrapping_mul": "*", "wrapping_div": "/", "wrapping_rem": "%",
              "wrapping_shl": "<<", "wrapping_shr": ">>"}
@@ -565,6 +639,14 @@ class Tr:
             if ta != tb:
                 raise Unsupported("min/max operand types")
             return "(%s %s %s)" % (name, a, b), ta
+        if name in ("Ok", "Some") and len(path) == 1 and len(args) == 1:
+            inner = want[1] if want and want[0] == "O" else None
+            v, tv = self.ex(args[0], env, inner)
+            return "(some %s)" % v, ("O", tv)
+        if name == "Err" and len(path) == 1:
+            if not (want and want[0] == "O"):
+                raise Unsupported("Err(..) without a known result type")
+            return "none", want
         if name == "from" and len(path) == 2 and path[0] in INT_TYPES and len(args) == 1:
             s, t = self.ex(args[0], env)
             return self.cast(s, t, INT_TYPES[path[0]]), INT_TYPES[path[0]]
@@ -624,6 +706,8 @@ class Tr:
             if t != ret_t:
                 raise Unsupported("return type %r vs %r" % (t, ret_t))
             return result(env, s)
+        if k == "expr" and st[1][0] == "ret":
+            return self.seq([("return", st[1][1])], env, [], ret_t, result)
         if k == "expr":
             e = st[1]
             is_last = not tail and not rest
@@ -647,7 +731,7 @@ class Tr:
     def has_effect(self, e):
         def st_eff(stmts):
             for s in stmts or []:
-                if s[0] in ("assign", "return"):
+                if s[0] in ("assign", "return") or (s[0] == "expr" and s[1][0] == "ret"):
                     return True
                 if s[0] == "expr" and s[1][0] == "if" and self.has_effect(s[1]):
                     return True
